@@ -181,6 +181,24 @@ RETURN_VALUE_OPCODE = opcode.opmap["RETURN_VALUE"]
 RETURN_OPCODES = {RETURN_VALUE_OPCODE, opcode.opmap.get("RETURN_CONST", RETURN_VALUE_OPCODE)}
 YIELD_VALUE_OPCODE = opcode.opmap["YIELD_VALUE"]
 
+RESUME_OPCODE = opcode.opmap.get("RESUME")
+
+
+def _is_resumption(frame: FrameType) -> bool:
+    """Is this 'call' event the resumption of a suspended generator/coroutine frame?"""
+    lasti = frame.f_lasti
+    if lasti < 0:
+        return False
+    if RESUME_OPCODE is None:
+        # before Python 3.11 only a resumed frame has executed anything at a 'call' event
+        return True
+    code = frame.f_code.co_code
+    # A new frame is at the RESUME instruction that starts its function (oparg 0). A frame
+    # resumed by next()/send() is at a RESUME with oparg 1-3 (after yield / yield from /
+    # await), one resumed by throw()/close() is still at its YIELD_VALUE.
+    return not (code[lasti] == RESUME_OPCODE and (code[lasti + 1] & 3) == 0)
+
+
 # A CodeFilter is a predicate that decides whether or not a the call for the
 # supplied code object should be traced.
 CodeFilter = Callable[[CodeType], bool]
@@ -225,6 +243,10 @@ class CallTracer:
         return self.cache[code]
 
     def handle_call(self, frame: FrameType) -> None:
+        if frame not in self.traces and _is_resumption(frame):
+            # a generator whose first call was not sampled: starting a trace now would
+            # record rebound locals as arguments and miss the values already yielded
+            return
         if self.sample_rate and random.randrange(self.sample_rate) != 0:
             return
         func = self._get_func(frame)
